@@ -4,7 +4,9 @@
 The normaliser claims to be behaviour-preserving.  For the clean tree and for every stored refactoring / seed patch this
 tool normalises *every* module of the package (prefix ""), writes the result into a scratch worktree and runs the
 project's own test suite on it: a difference from the un-normalised result means a rewriting step's side condition is
-wrong.  Usage: tools/inline_selftest.py [patch dirs...]  (default: all of refactors/ and seeded/)."""
+wrong.  With --equiv the refactoring's own differential harness (equiv.py, several thousand inputs) is also run before and after the
+normalisation and the two transcripts must be identical.
+Usage: tools/inline_selftest.py [--equiv] [patch dirs...]  (default: all of refactors/ and seeded/)."""
 from __future__ import annotations
 
 import pathlib
@@ -39,14 +41,27 @@ def one(d: pathlib.Path | None) -> str:
         if n is c:
             return f"{d.name if d else 'clean'}: nothing to normalise"
         rc0, t0 = suite(wt)
+        eq = ""
+        harness = d / "equiv.py" if d is not None and (d / "equiv.py").exists() and EQUIV else None
+        if harness is not None:
+            for extra in d.glob("*.py"):
+                shutil.copy(extra, tmp / extra.name)
+            subprocess.run(["/venv/bin/python", str(tmp / "equiv.py"), str(tmp / "a.txt")], cwd=wt, env={"PYTHONPATH": str(wt), "PATH": "/usr/bin:/bin"},
+                           capture_output=True, timeout=600)
         k = 0
         for rel, m in n.p.modules.items():
             if m.norm_log:
                 (wt / "markdown_it" / rel).write_text(m.source)
                 k += 1
         rc1, t1 = suite(wt)
+        if harness is not None:
+            subprocess.run(["/venv/bin/python", str(tmp / "equiv.py"), str(tmp / "b.txt")], cwd=wt, env={"PYTHONPATH": str(wt), "PATH": "/usr/bin:/bin"},
+                           capture_output=True, timeout=600)
+            a, b = (tmp / "a.txt"), (tmp / "b.txt")
+            same = a.exists() and b.exists() and a.read_bytes() == b.read_bytes()
+            eq = f" equiv transcript ({len(a.read_bytes().splitlines()) if a.exists() else 0} cases) {'identical' if same else 'DIFFERENT <<<<<<'}"
         ok = (rc0 == rc1) and t0.split(" in ")[0] == t1.split(" in ")[0]
-        return f"{d.name if d else 'clean'}: {k} modules normalised; before [{t0}] after [{t1}] {'SAME' if ok else 'DIFFERENT <<<<<<'}"
+        return f"{d.name if d else 'clean'}: {k} modules normalised; before [{t0}] after [{t1}] {'SAME' if ok else 'DIFFERENT <<<<<<'}{eq}"
     except Exception as e:          # noqa: BLE001
         return f"{d.name if d else 'clean'}: ERROR {type(e).__name__}: {e}"
     finally:
@@ -54,8 +69,11 @@ def one(d: pathlib.Path | None) -> str:
         shutil.rmtree(tmp, ignore_errors=True)
 
 
+EQUIV = "--equiv" in sys.argv
+
+
 def main() -> None:
-    dirs: list[pathlib.Path | None] = [pathlib.Path(a).resolve() for a in sys.argv[1:]]
+    dirs: list[pathlib.Path | None] = [pathlib.Path(a).resolve() for a in sys.argv[1:] if not a.startswith("--")]
     if not dirs:
         dirs = [None] + sorted(p for p in (HERE / "refactors").iterdir() if (p / "patch.diff").exists()) \
             + sorted(p for p in (HERE / "seeded").iterdir() if (p / "patch.diff").exists())
